@@ -2163,6 +2163,55 @@ def id_width_sites(db):
     return {'ids:message-numbers-are-never-narrowed': (not narrowing, 'qmail-send.c', 'a message number is converted to a 32-bit type at %s: for inode numbers of 2^32 and more the function works on another message\'s files (a finished recipient is not marked and is delivered again)' % narrowing[:3] if narrowing else '%d message-number expressions' % nids, [])}
 
 
+class RereadHooks(SendHooks):
+    """reread() (HUP): the daemon works with paths relative to queue/; whatever the re-read of the control files does, it is back there afterwards"""
+    def __init__(self):
+        super().__init__()
+        self.ends = []
+
+    def tracked_global(self, path):
+        return True
+
+    def prim_chdir(self, E, x, args):
+        from qv.lib import lit_of
+        lit = lit_of(E, x.args[0])
+        where = 'queue' if lit == 'queue' else 'home'
+        if where == 'home':
+            return [Outcome(ret=fs(0), sets={'$cwd': fs('home')}, log='chdir(home)'), Outcome(ret=fs(-1), log='chdir(home) fails')]
+        return [Outcome(ret=fs(0), sets={'$cwd': fs('home/queue' if g1(E, '$cwd', 'queue') == 'home' else 'elsewhere')}, log='chdir("queue")')]
+
+    def prim_control_readfile(self, E, x, args):
+        return [Outcome(ret=fs(1)), Outcome(ret=fs(0)), Outcome(ret=fs(-1), log='control file unreadable')]
+
+    def _ok1(self, E, x, args):
+        return [Outcome(ret=fs(1))]
+
+    prim_stralloc_copy = prim_constmap_init = _ok1
+
+    def _n(self, E, x, args):
+        return [Outcome(ret=TOP)]
+
+    prim_constmap_free = prim_log1 = prim_sleep = _n
+
+    def on_return(self, E, fn, val):
+        if fn.name == 'reread':
+            self.ends.append((g1(E, '$cwd', 'queue'), E.trace.list()))
+
+
+def reread_sites(db, rep):
+    prog = db.program('qmail-send')
+    fn = prog.fn('reread', 'qmail-send.c')
+    H = RereadHooks()
+    eng = Engine(db, prog, H, max_states=100000)
+    eng.run(fn, {'$cwd': fs('queue')})
+    rep.count_states(eng.states, eng.transitions)
+    if len(H.ends) < 2:
+        raise AnalysisBroken('reread: %d ends explored' % len(H.ends))
+    bad = [e_ for e_ in H.ends if e_[0] not in ('queue', 'home/queue')]
+    return {'reread:back-in-the-queue-directory-on-every-way-out': (not bad, 'qmail-send.c:reread',
+            'after a HUP with an unreadable control file the daemon is left in %r: every queue-relative path fails from then on (finished recipients are not marked and are delivered again, retry times are not saved)' % (bad[0][0] if bad else ''), bad[0][1] if bad else [])}
+
+
 # =============================================================================== helpers for rule files
 def attach(rule, sites, prefixes=None, only=None, exclude=()):
     n = 0
